@@ -644,7 +644,7 @@ def run(ctx) -> Report:
              "(silent steps: reader consumed size field / reader died / no-op close) and all four invariants hold in every state",
         evaluations=rep.traces,
         distinct_nontrivial=rep.extra.get("distinct_scripts", 0),
-        exhaustive={"model": "MC_Connection configs above (complete state graphs)",
+        exhaustive=False, exhaustive_parts={"model": "MC_Connection configs above (complete state graphs)",
                     "implementation": "every split into <= 3 chunks of the response stream of 1-2 (quick) / 1-3 (thorough) "
                                       "pipelined requests; every bad-frame kind at every position of 3 (4) requests; "
                                       "EOF and reset after every byte offset; timeout/cancel x conn/client x 5 arrival phases x 3 positions"},
